@@ -96,6 +96,8 @@ def variants(name, actors, rng, full=False):
                     init_net = [(0, len(actors) - 1, 1)]
                 if rng.random() < 0.15:
                     init_net.append((0, 7, 1))          # addressed to a non-existent actor
+                if init_net and rng.random() < 0.3:
+                    init_net.append(init_net[0])        # the same envelope twice in the initial network
                 out.append(system("%s/%s%s/c%d/%s" % (name, net, "+lossy" if lossy else "", mc, hist),
                                   copy.deepcopy(actors), network=net, lossy=lossy, max_crashes=mc, init_net=init_net,
                                   history=hist, net_len=6, hist_len=48))
@@ -158,6 +160,8 @@ def random_system(rng, sid, wrap="none"):
     actors = [random_actor(rng, n) for _ in range(n)]
     net = rng.choice(["ordered", "dup", "nondup"])
     init_net = [(rng.randrange(n), rng.randrange(n), rng.randint(1, 3)) for _ in range(rng.choice([0, 0, 1, 2]))]
+    if init_net and rng.random() < 0.25:
+        init_net.append(init_net[0])                    # the same envelope twice in the initial network
     return system(sid, actors, network=net, lossy=rng.random() < 0.4, max_crashes=rng.choice([0, 0, 1, 2, n]),
                   init_net=init_net, history=rng.choice(["none", "none", "log", "count", "in_only", "out_only"]),
                   net_len=rng.choice([3, 4, 5]), hist_len=rng.choice([0, 16, 24]), wrap=wrap, max_states=1500)
